@@ -111,7 +111,9 @@ class Tmatrix(ScatteringTheory):
         if not (np.ndim(rxy) == 0 and np.ndim(rz) == 0 and rxy > 0 and
                 rz > 0):
             raise InvalidScatterer(scatterer, "dimensions must be positive")
-        axi = (3/2)**iscyl*(rz*rxy**2)**(1/3.)
+        # radius of the sphere of equal volume: (4/3) pi axi^3 is
+        # (4/3) pi rxy^2 rz for a spheroid and 2 pi rxy^2 rz for a cylinder
+        axi = ((3/2)**iscyl*rz*rxy**2)**(1/3.)
         # the compiled code handles size parameters up to about 180; far
         # beyond that its integer arithmetic overflows and the process
         # crashes, so refuse such particles here
